@@ -386,5 +386,82 @@ class OtherFeatures(Part):
         return res
 
 
+class PreservedBlockHistories(Part):
+    name = "histories_over_several_preserved_blocks"
+    desc = ("one address inside each of 2..4 preserved blocks plus outsiders and a mask, line level, both directions: every "
+            "history of <= 3 requests (thorough 4) on one anonymizer and on one FileAnonymizer - each answer is the fresh-"
+            "instance answer (a preserved address stays verbatim whatever was asked before)")
+
+    CONFIGS = [["10.0.0.0/8", "172.16.0.0/12", "192.168.0.0/16"], ["11.11.0.0/16", "200.7.6.0/24"],
+               ["10.0.0.0/8", "10.1.0.0/16", "10.1.2.0/24", "12.0.0.0/8"]]
+
+    def __init__(self, tier, seed):
+        self.tier, self.seed = tier, seed
+
+    def cases(self):
+        return [{"nets": n, "B": B, "entry": e} for n in self.CONFIGS for B in (0, 8) for e in ("anonymizer", "FileAnonymizer")]
+
+    def run(self, case):
+        import io
+        import ipaddress
+
+        from netconan.anonymize_files import FileAnonymizer
+        from props import ipdom
+        from mc import refs
+
+        res = Res()
+        m = ipdom.mod()
+        nets = [ipaddress.ip_network(n) for n in case["nets"]]
+        alphabet = [refs.v4_text(int(n.network_address) + 5 + 256 * k) for k, n in enumerate(nets)]
+        alphabet += ["99.7.6.5", "13.200.1.9", "255.255.0.0"]
+        reqs = [(a, u) for a in alphabet for u in (False, True)]
+
+        def fresh():
+            if case["entry"] == "anonymizer":
+                return ipdom.make_v4(["md5", "saltForTest"], case["B"], None, list(case["nets"]))
+            with seams.capture_logs():
+                return (FileAnonymizer(anon_pwd=False, anon_ip=True, salt="saltForTest", preserve_networks=list(case["nets"]), preserve_suffix_v4=case["B"], preserve_suffix_v6=case["B"]),
+                        FileAnonymizer(anon_pwd=False, anon_ip=False, undo_ip_anon=True, salt="saltForTest", preserve_networks=list(case["nets"]), preserve_suffix_v4=case["B"], preserve_suffix_v6=case["B"]))
+
+        def ask(obj, a, undo):
+            line = "peer %s up" % a
+            if case["entry"] == "anonymizer":
+                return m.anonymize_ip_addr(obj, line, undo)
+            out = io.StringIO()
+            with seams.capture_logs():
+                obj[1 if undo else 0].anonymize_io(io.StringIO(line + "\n"), out)
+            return out.getvalue().rstrip("\n")
+
+        want = {}
+        for a, u in reqs:
+            want[(a, u)] = ask(fresh(), a, u)
+        depth = 3 if self.tier == "quick" else 4
+        if case["entry"] == "FileAnonymizer":
+            depth = min(depth, 3)
+        hists = [tuple(case["hist"])] if "hist" in case else [h for d in range(2, depth + 1) for h in itertools.product(range(len(reqs)), repeat=d)]
+        for h in hists:
+            # the FileAnonymizer pair shares nothing between its two objects: only same-direction histories matter there
+            if case["entry"] == "FileAnonymizer" and len({reqs[i][1] for i in h}) > 1:
+                continue
+            obj = fresh()
+            res.states += 1
+            for k, i in enumerate(h):
+                a, u = reqs[i]
+                got = ask(obj, a, u)
+                res.evals += 1
+                res.transitions += 1
+                if got != want[(a, u)]:
+                    res.violation("answer-depends-on-earlier-requests|preserved-blocks",
+                                  "networks %r host bits %d (%s): after %r the request %s%s gives %r, a fresh instance gives %r" % (
+                                      case["nets"], case["B"], case["entry"], [("undo " if reqs[j][1] else "") + reqs[j][0] for j in h[:k]],
+                                      "undo " if u else "", a, got, want[(a, u)]), dict(case, hist=list(h[:k + 1])))
+                    return res
+        res.nt(tuple(sorted((k, str(v)) for k, v in case.items())))
+        res.out(len(hists))
+        if "hist" not in case:
+            res.samples.append({"case": case, "alphabet": alphabet, "histories": len(hists)})
+        return res
+
+
 def parts(tier, seed):
-    return [GraphPart(tier, seed), FilesPart(tier, seed), LongHistory(tier, seed), JobSequences(tier, seed), OtherFeatures(tier, seed)]
+    return [GraphPart(tier, seed), FilesPart(tier, seed), LongHistory(tier, seed), JobSequences(tier, seed), OtherFeatures(tier, seed), PreservedBlockHistories(tier, seed)]
